@@ -84,6 +84,10 @@ def run(ctx):
                      'state', 2)
     ctx.rule('R02f', 'an absent optional argument consumes nothing: the reader is moved back to the '
                      'first token including its leading whitespace', 2)
+    ctx.rule('R02k', 'a parser that collects results in a loop does not lose what it has collected when the '
+                     'input ends: every token read of the helper it calls per iteration is inside a handler '
+                     'for LatexWalkerEndOfStream (otherwise parse_content turns the escaping end-of-stream into '
+                     '"no result" -- a star read just before the end of the input is reported absent)', 2)
     ctx.rule('R02j', 'a ReplaceParsingState delta never installs the state recorded on a node (the state the '
                      'node was parsed in) as the state for what follows', 2)
     ctx.rule('R02i', 'sibling agreement: every argument parser built by get_arg_parser_instance whose class '
@@ -208,6 +212,8 @@ def run(ctx):
     # ------------------------------------------------------------ R02h
     _begin_end_word_boundary(ctx, repo)
     first_tokens_complete(ctx, repo, 'R02f')
+    # ------------------------------------------------------------ R02k (end of input after a partial read)
+    _eos_after_partial_read(ctx, repo)
     # ------------------------------------------------------------ R02j (who may replace the state)
     n_rep = 0
     for mod_ in sorted(repo.modules.values(), key=lambda m_: m_.name):
@@ -398,6 +404,50 @@ def _begin_end_word_boundary(ctx, repo):
         else:
             ctx.refuted('R02h', tm, cs.node, 'begin/end are recognised with the pattern %r: %s'
                         % (pat, why), construct=cons)
+
+
+def _eos_after_partial_read(ctx, repo):
+    READS = ('peek_token', 'next_token', 'next_chars', 'peek_chars')
+    n = 0
+    for mod in sorted(repo.modules.values(), key=lambda m_: m_.name):
+        if 'parsers' not in mod.name:
+            continue
+        for q, f in sorted(mod.functions.items()):
+            if not q.endswith('.parse'):
+                continue
+            cls = q.rsplit('.', 1)[0]
+            for lp in [l for l in iter_own(f) if isinstance(l, (ast.While, ast.For))]:
+                calls = [c for c in ast.walk(lp) if isinstance(c, ast.Call)]
+                acc = [c for c in calls if call_name(c) in ('append', 'extend')] + \
+                    [a for a in ast.walk(lp) if isinstance(a, ast.AugAssign)]
+                if not acc:
+                    continue
+                for hc in calls:
+                    if not (isinstance(hc.func, ast.Attribute) and isinstance(hc.func.value, ast.Name)
+                            and hc.func.value.id == 'self'):
+                        continue
+                    h = mod.functions.get('%s.%s' % (cls, hc.func.attr))
+                    if h is None:
+                        continue
+                    for rd in [c for c in iter_own(h) if isinstance(c, ast.Call) and call_name(c) in READS
+                               and call_recv(c) is not None and 'reader' in unparse(call_recv(c))]:
+                        n += 1
+                        prot = False
+                        for p_ in parents(rd):
+                            if isinstance(p_, ast.Try) and any(rd is x for b in p_.body for x in ast.walk(b)) and any(
+                                    hd.type is None or any(nm in unparse(hd.type) for nm in (
+                                        'LatexWalkerEndOfStream', 'LatexWalkerError', 'Exception'))
+                                    for hd in p_.handlers):
+                                prot = True
+                        ctx.decide('R02k', prot, mod, rd,
+                                   'read inside a handler for end of stream',
+                                   '%s is called once per iteration of the collecting loop of %s and reads a token '
+                                   'outside any handler for LatexWalkerEndOfStream: when the input ends after an '
+                                   'earlier iteration has matched (e.g. the star of \\cmd* at the very end of the '
+                                   'input), the exception leaves parse() and the argument already read is reported '
+                                   'absent' % (hc.func.attr, q), construct='%s.%s: %s' % (cls, hc.func.attr, short(rd, 60)))
+    if n < 2:
+        raise AnalysisError('end-of-stream protection: only %d reads in per-iteration helpers found' % n)
 
 
 def first_tokens_complete(ctx, repo, rule):
